@@ -423,5 +423,8 @@ int main(int argc, char **argv) {
     if (v != 0 || e != t + 1 || sizeof(long long) != 8) { fprintf(stderr, "harness: unexpected libc strtol behaviour on \"0x\"\n"); return 2; }
     t = "0b1"; v = strtol(t, &e, 0);
     if (v != 0 || e != t + 1) { fprintf(stderr, "harness: libc strtol accepts a 0b prefix (not glibc 2.36 behaviour)\n"); return 2; }
-    return run_main(argc, argv, gen, exec_case);
+    // the machine is shared: a 4 s stall of a starved worker is not a hang; an explicit --timeout still wins
+    std::vector<char *> av{argv[0], (char *)"--timeout", (char *)"30"};
+    for (int i = 1; i < argc; ++i) av.push_back(argv[i]);
+    return run_main((int)av.size(), av.data(), gen, exec_case);
 }
